@@ -71,7 +71,16 @@ def c15_events() -> List[Dict[str, Any]]:
         Hands.convert_binary(h.to_binary())
     except Exception:  # noqa
         pass
-    return first + c15_pass('o')
+    # ... and the same conversions in an interpreter that strips asserts (-O)
+    from .core import run_optimized
+    opt = run_optimized('harness.notation', 'c15_pass', ['O'])[0]
+    return first + c15_pass('o') + opt
+
+
+def _fresh(t: str) -> str:
+    """An equal text that is a different object (as texts read from a file, a
+    socket or json.loads are): a decoder must not rely on string identity."""
+    return (t + '_')[:-1]
 
 
 def c15_pass(prefix: str) -> List[Dict[str, Any]]:
@@ -89,7 +98,7 @@ def c15_pass(prefix: str) -> List[Dict[str, Any]]:
               lambda: (lambda c: {'rank': c.rank, 'suit': c.suit.value - 1})(Card.int_to_card(a)))
     texts = [str(Card.int_to_card(a)) for a in range(52)]
     for t in sorted(set(texts)):
-        R.add('card.from_str', {'text': t}, lambda: {'out': int(Card.str_to_card(t))})
+        R.add('card.from_str', {'text': t}, lambda: {'out': int(Card.str_to_card(_fresh(t)))})
     for rank in range(2, 15):
         R.add('card.rank_str', {'rank': rank},
               lambda: (lambda s: {'out': s, 'back': Card.rank_str_to_int(s)})(Card.rank_int_to_str(rank)))
@@ -113,7 +122,7 @@ def c15_pass(prefix: str) -> List[Dict[str, Any]]:
             R.add('bid.from_level_suit', {'level': level, 'suit': s},
                   lambda: {'out': Bid.level_suit_to_bid(level, Suit(s + 1)).idx})
     for t in sorted({str(Bid(a + 1)) for a in range(38)}):
-        R.add('bid.from_str', {'text': t}, lambda: {'out': Bid.str_to_bid(t).idx})
+        R.add('bid.from_str', {'text': t}, lambda: {'out': Bid.str_to_bid(_fresh(t)).idx})
     for a in range(4):
         def props(a=a):
             p = Player(a + 1)
@@ -139,7 +148,7 @@ def c15_pass(prefix: str) -> List[Dict[str, Any]]:
               lambda: {'str': str(Vul(a + 1)), 'pbn': Vul(a + 1).pbn_format(),
                        'proto': Server.convert_vul(Vul(a + 1))})
     for t in ['None', 'Love', '-', 'NS', 'EW', 'Both', 'All']:
-        R.add('vul.from_str', {'text': t}, lambda: {'out': Vul.str_to_vul(t).value - 1})
+        R.add('vul.from_str', {'text': t}, lambda: {'out': Vul.str_to_vul(_fresh(t)).value - 1})
     for a in range(5):
         R.add('suit.props', {'a': a},
               lambda: {'str': str(Suit(a + 1)), 'minor': bool(Suit(a + 1).is_minor()),
@@ -170,7 +179,7 @@ def c15_pass(prefix: str) -> List[Dict[str, Any]]:
                 texts.append((str(Contract(fb, x=x, xx=xx)), po))
 
     def cfrom(t, v, d):
-        c = Contract.str_to_contract(t, vul=Vul(v + 1),
+        c = Contract.str_to_contract(_fresh(t), vul=Vul(v + 1),
                                      declarer=None if d == NOSEAT else Player(d + 1))
         fb = c.final_bid
         return {'out_bid': NOCALL if fb is None else fb.idx, 'out_x': bool(c.x),
@@ -224,11 +233,11 @@ def run_c15(pid: str, tier: str) -> int:
                 R.add('card.from_int', {'a': a},
                       lambda: (lambda c: {'rank': c.rank, 'suit': c.suit.value - 1})(Card.int_to_card(a)))
                 t = str(Card.int_to_card((20 + shift) % 52))
-                R.add('card.from_str', {'text': t}, lambda: {'out': int(Card.str_to_card(t))})
+                R.add('card.from_str', {'text': t}, lambda: {'out': int(Card.str_to_card(_fresh(t)))})
                 b = (3 + 11 * shift) % 38
                 R.add('bid.from_int', {'a': b}, lambda: {'out': Bid.int_to_bid(b).idx})
                 bt = str(Bid.int_to_bid((17 + shift) % 38))
-                R.add('bid.from_str', {'text': bt}, lambda: {'out': Bid.str_to_bid(bt).idx})
+                R.add('bid.from_str', {'text': bt}, lambda: {'out': Bid.str_to_bid(_fresh(bt)).idx})
                 for s in range(4):
                     p = Player((s + shift) % 4 + 1)
                     R.add('seat.props', {'a': p.value - 1},
@@ -239,12 +248,12 @@ def run_c15(pid: str, tier: str) -> int:
                                    'from_formal': seatv(Player.convert_formal_name(p.formal_name)),
                                    'from_name': seatv(Player[str(p)])})
                 for t2 in (['Love', 'All', 'NS'] if shift else ['-', 'Both', 'EW', 'None']):
-                    R.add('vul.from_str', {'text': t2}, lambda: {'out': Vul.str_to_vul(t2).value - 1})
+                    R.add('vul.from_str', {'text': t2}, lambda: {'out': Vul.str_to_vul(_fresh(t2)).value - 1})
                 ct = ['3NTX', '1C', '7SXX'][shift % 3]
                 R.add('contract.from_str', {'text': ct, 'vul': shift % 4, 'decl': (1 + shift) % 4},
                       lambda: (lambda c: {'out_bid': c.final_bid.idx, 'out_x': bool(c.x), 'out_xx': bool(c.xx),
                                           'out_vul': c.vul.value - 1, 'out_decl': seatv(c.declarer)})(
-                          Contract.str_to_contract(ct, vul=Vul(shift % 4 + 1), declarer=Player((1 + shift) % 4 + 1))))
+                          Contract.str_to_contract(_fresh(ct), vul=Vul(shift % 4 + 1), declarer=Player((1 + shift) % 4 + 1))))
                 return R.evs
             return call
         return mk('A', 0), mk('B', 1)
